@@ -130,6 +130,7 @@ func GenProg(r *Rng, cfg ProgCfg) *Prog {
 		p.ReqOrder = true
 	}
 	p.MapLower = r.Chance(1, 5)
+	p.LateMode = r.Chance(1, 4)
 	if cfg.Help && r.Chance(2, 3) {
 		p.Help = "help"
 		if r.Chance(1, 4) {
@@ -165,6 +166,9 @@ func GenProg(r *Rng, cfg ProgCfg) *Prog {
 		if !isRoot && !c.Unset && cfg.CmdModes && r.Chance(1, 5) {
 			c.Unknown = cfg.Unknowns[r.Intn(len(cfg.Unknowns))]
 		}
+		if !isRoot && cfg.ReqOrder && r.Chance(1, 5) {
+			c.ReqOrder = true // require-order set on a command only (wrapper style)
+		}
 		if !isRoot {
 			c.Desc = fmt.Sprintf("desc-%s-%d", name, depth)
 		}
@@ -194,6 +198,7 @@ func GenProg(r *Rng, cfg ProgCfg) *Prog {
 				o.Aliases = append(o.Aliases, a)
 			}
 			o.UseVar = r.Bool()
+			o.AliasSplit = r.Chance(1, 3)
 			switch o.Kind {
 			case KBool:
 				o.DefB = r.Chance(1, 3)
